@@ -2,5 +2,16 @@
 # Copy the macro crate's current sources next to the harness root (T1/T2, DESIGN.md section 4).
 set -e
 cd "$(dirname "$0")"
-rsync -rc --delete --exclude lib.rs --exclude main.rs --exclude dump.rs --exclude dump_syn.rs --exclude toks_cmds.rs --exclude toks_main.rs /repo/assert-struct-macros/src/ src/
+rsync -rc --delete --exclude lib.rs --exclude main.rs --exclude dump.rs --exclude dump_syn.rs --exclude toks_cmds.rs --exclude toks_main.rs --exclude assert_struct_def.rs /repo/assert-struct-macros/src/ src/
 cp /repo/Cargo.lock Cargo.lock
+# the input struct of the macro, as lib.rs defines it now (the harness reads its `value` and `pattern` fields only, so that a field
+# added to it does not stop the harness from building); rewritten only when it changes (cargo looks at mtimes)
+python3 - <<'PY'
+import os, re
+lib = open('/repo/assert-struct-macros/src/lib.rs').read()
+m = re.search(r'struct AssertStruct\s*\{[^}]*\}', lib)
+text = (m.group(0) if m else 'struct AssertStruct {\n    value: syn::Expr,\n    pattern: Pattern,\n}') + '\n'
+p = 'src/assert_struct_def.rs'
+if not os.path.exists(p) or open(p).read() != text:
+    open(p, 'w').write(text)
+PY
